@@ -94,7 +94,7 @@ Truthful(seq, len) == <<"Send", 1, seq, len, 5, len, 1, 0>>
 
 MsgHist(t, mc, a, h) ==
   LET mx == Max(mc[1], mc[2])
-      k == (((a % 100003) * 7) + (IF h < 0 THEN 3 + ((0 - (h + 1)) % 1009) ELSE h % 1009) + (mx % 100003) + t) % 5040
+      k == (((a % 100003) * 7) + (IF h < 0 THEN 3 + ((0 - (h + 1)) % 1009) ELSE h % 1009) + (mx % 100003) + t + (Seed0 * 37)) % 5040
       id == IdSeq[(k % 8) + 1]
       note == <<1, 1, 0, 3>>[((k \div 8) % 4) + 1]
       pat == (k \div 32) % 2
